@@ -167,4 +167,11 @@ def mutations(text: str, version: str, rng: random.Random, per_kind: int = 3):
     emit('bad_version', '~', '~', [lines[0], lines[1].replace('WN-LMF-' + version, 'WN-LMF-2.0')] + lines[2:])
     emit('blank_first_line', '~', '~', [''] + lines)
     emit('doctype_quotes', '~', '~', [lines[0].replace('"', "'"), lines[1].replace('"', "'")] + lines[2:])
+    # bytes before the declaration (a byte order mark, a blank): refused by the header test
+    # although an XML parser would skip a byte order mark
+    emit('bom', '~', '~', ['\ufeff' + lines[0]] + lines[1:])
+    emit('leading_space', '~', '~', [' ' + lines[0]] + lines[1:])
+    # blanks / a carriage return at the end of the two header lines are not significant
+    emit('header_ws', '~', rng.choice(['cr', 'sp']), [lines[0] + '\r', lines[1] + '\r'] + lines[2:]
+         if rng.random() < 0.5 else [lines[0] + '  ', lines[1] + ' \t'] + lines[2:])
     return out
